@@ -1350,6 +1350,59 @@ def ifexp_to_statement(tree):
     return log
 
 
+# ------------------------------------------------------------------ tuple temporaries
+def scalarize_tuple_locals(tree):
+    """A local that is only ever bound to tuple displays of one arity and only ever read by `x1, .., xk = T`: every
+    `T = (e1, .., ek)` becomes `T__0 = e1; ..; T__k-1 = ek` and every destructuring `x1 = T__0; ..`.  (What an inlined
+    helper returning a pair leaves behind.)"""
+    log = []
+    for fn in [n for n in ast.walk(tree) if isinstance(n, FUNC)]:
+        stores, loads, bad = {}, {}, set()
+        params = {a.arg for a in ast.walk(fn.args) if isinstance(a, ast.arg)}
+        for n in _shallow(fn.body):
+            if isinstance(n, ast.Assign) and len(n.targets) == 1 and isinstance(n.targets[0], ast.Name) and isinstance(n.value, ast.Tuple) and not any(
+                    isinstance(e, ast.Starred) for e in n.value.elts):
+                stores.setdefault(n.targets[0].id, []).append(n)
+            elif isinstance(n, ast.Assign) and len(n.targets) == 1 and isinstance(n.targets[0], (ast.Tuple, ast.List)) and isinstance(n.value, ast.Name) and not any(
+                    isinstance(e, ast.Starred) for e in n.targets[0].elts):
+                loads.setdefault(n.value.id, []).append(n)
+        for name in list(stores):
+            if name in params or name not in loads:
+                continue
+            k = len(stores[name][0].value.elts)
+            if any(len(x.value.elts) != k for x in stores[name]) or any(len(x.targets[0].elts) != k for x in loads[name]):
+                continue
+            accounted = {id(x.targets[0]) for x in stores[name]} | {id(x.value) for x in loads[name]}
+            if any(isinstance(n, ast.Name) and n.id == name and id(n) not in accounted for n in ast.walk(fn)):
+                continue
+            if any(isinstance(n, ast.Name) and n.id == name for x in stores[name] for n in ast.walk(x.value)):
+                continue
+            repl = {}
+            for x in stores[name]:
+                repl[id(x)] = [ast.copy_location(ast.Assign(targets=[ast.Name(id="%s__%d" % (name, i), ctx=ast.Store())], value=e, lineno=x.lineno), x)
+                               for i, e in enumerate(x.value.elts)]
+            for x in loads[name]:
+                repl[id(x)] = [ast.copy_location(ast.Assign(targets=[t], value=ast.Name(id="%s__%d" % (name, i), ctx=ast.Load()), lineno=x.lineno), x)
+                               for i, t in enumerate(x.targets[0].elts)]
+
+            def block(stmts):
+                out = []
+                for st in stmts:
+                    for field in ("body", "orelse", "finalbody"):
+                        sub = getattr(st, field, None)
+                        if isinstance(sub, list) and sub and isinstance(sub[0], ast.stmt) and not isinstance(st, FUNC + (ast.ClassDef,)):
+                            setattr(st, field, block(sub))
+                    for h in getattr(st, "handlers", []) or []:
+                        h.body = block(h.body)
+                    out.extend(repl.get(id(st), [st]))
+                return out
+            fn.body = block(fn.body)
+            log.append("tuple temporary %s of %s split into %d names" % (name, fn.name, k))
+    if log:
+        ast.fix_missing_locations(tree)
+    return log
+
+
 # ------------------------------------------------------------------ parallel assignment
 def split_tuple_assignments(tree):
     """`a, b = E1, E2`  ->  `a = E1; b = E2` when no target is read by any right-hand side (so the order of the stores
@@ -1693,6 +1746,16 @@ def thread_flags(tree):
                     if isinstance(st.value, ast.Call) and isinstance(st.value.func, ast.Name) and st.value.func.id == "object" and not st.value.args:
                         sentinels.add(t.id)
     sentinels = {n_ for n_ in sentinels if counts.get(n_) == 1}
+    # names bound once at module level to pairwise distinct str / int constants behave like sentinels under `is` / `==`
+    consts_ = {}
+    for st in tree.body:
+        if isinstance(st, ast.Assign) and len(st.targets) == 1 and isinstance(st.targets[0], ast.Name) and isinstance(st.value, ast.Constant) and isinstance(
+                st.value.value, (str, int)) and not isinstance(st.value.value, bool) and counts.get(st.targets[0].id) == 1:
+            consts_[st.targets[0].id] = st.value.value
+    by_val = {}
+    for k_, v_ in consts_.items():
+        by_val.setdefault((type(v_), v_), []).append(k_)
+    sentinels |= {ks[0] for ks in by_val.values() if len(ks) == 1 and ks[0].startswith("_")}
 
     def block(stmts, fn):
         i = 0
@@ -1700,6 +1763,30 @@ def thread_flags(tree):
             a, b = stmts[i], stmts[i + 1]
             arms = _leaf_arms(a)
             flag = None
+            if arms:
+                # leaves that always leave (return / raise) never reach the test
+                arms = [arm for arm in arms if not _always_leaves(arm)] or None
+            if arms and not isinstance(b, ast.If):
+                # plain copies between the if-tree and a test of what they copy (`committed = T__1`, then `if committed ..`):
+                # they move into the leaves, the test then follows the tree directly
+                j = i + 1
+                while j < len(stmts) and isinstance(stmts[j], ast.Assign) and len(stmts[j].targets) == 1 and isinstance(
+                        stmts[j].value, (ast.Name, ast.Constant)) and _simple_target(stmts[j].targets[0]):
+                    j += 1
+                lead = stmts[i + 1:j]
+                assigned_in_arms = {l.targets[0].id for arm in arms for l in arm if isinstance(l, ast.Assign) and len(l.targets) == 1 and isinstance(l.targets[0], ast.Name)}
+                if lead and j < len(stmts) and isinstance(stmts[j], ast.If) and any(isinstance(x.value, ast.Name) and x.value.id in assigned_in_arms for x in lead) and \
+                        {y.id for y in ast.walk(stmts[j].test) if isinstance(y, ast.Name)} & {x.targets[0].id for x in lead if isinstance(x.targets[0], ast.Name)}:
+                    # the copy that feeds the test goes last in each leaf
+                    tested = {y.id for y in ast.walk(stmts[j].test) if isinstance(y, ast.Name)}
+                    lead = sorted(lead, key=lambda x: isinstance(x.targets[0], ast.Name) and x.targets[0].id in tested)
+                    all_arms = _leaf_arms(a)
+                    for arm in all_arms:
+                        if not _always_leaves(arm):
+                            arm.extend(copy.deepcopy(lead))
+                    del stmts[i + 1:j]
+                    log.append("%d copies moved into the arms at line %d" % (len(lead), getattr(a, "lineno", 0)))
+                    b = stmts[i + 1]
             if arms and isinstance(b, ast.If):
                 names = {x.id for x in ast.walk(b.test) if isinstance(x, ast.Name)}
                 lasts = [arm[-1] if arm else None for arm in arms]
@@ -1711,7 +1798,17 @@ def thread_flags(tree):
                 del stmts[i + 1]
                 continue
             if flag:
-                vals = [_decide(b.test, flag, arm[-1].value, sentinels) for arm in arms]
+                def _leaf_value(arm):
+                    # the value the flag has at the end of the leaf: through a copy of a name the leaf itself bound to a constant
+                    v_ = arm[-1].value
+                    if isinstance(v_, ast.Name):
+                        for st_ in reversed(arm[:-1]):
+                            if isinstance(st_, ast.Assign) and len(st_.targets) == 1 and isinstance(st_.targets[0], ast.Name) and st_.targets[0].id == v_.id:
+                                return st_.value
+                            if any(isinstance(y, ast.Name) and y.id == v_.id and isinstance(y.ctx, ast.Store) for y in ast.walk(st_)):
+                                break
+                    return v_
+                vals = [_decide(b.test, flag, _leaf_value(arm), sentinels) for arm in arms]
                 uses = sum(1 for x in ast.walk(fn) if isinstance(x, ast.Name) and x.id == flag)
                 n_test = sum(1 for x in ast.walk(b.test) if isinstance(x, ast.Name) and x.id == flag)
                 drop = uses == len(arms) + n_test
@@ -1722,6 +1819,29 @@ def thread_flags(tree):
                 neg = not isinstance(b.test, ast.Name)
                 general = plain and drop and any(v is not None for v in vals) and all(
                     v is not None or _pure_test_value(arm[-1].value) for arm, v in zip(arms, vals))
+                # `if <test on flag>: BODY` without else where BODY always leaves, the flag being tested again further on:
+                # BODY moves into the leaves that decide the test true (which need the flag no more), the others go on
+                staged = (not drop) and all(v is not None for v in vals) and not b.orelse and _always_leaves(b.body) and not any(
+                    isinstance(x, ast.Name) and x.id == flag for st_ in b.body for x in ast.walk(st_))
+                if staged:
+                    for arm, v in zip(arms, vals):
+                        if v:
+                            arm.pop()
+                            arm.extend(copy.deepcopy(b.body))
+                    del stmts[i + 1]
+                    log.append("flag %s: test at line %d threaded into %d of %d arms" % (flag, getattr(b, "lineno", 0), sum(1 for v in vals if v), len(arms)))
+                    continue
+                # some leaves decide the test, the others keep it: a copy of the whole `if` goes into those
+                mixed = (not general) and any(v is not None for v in vals) and not all(v is not None for v in vals)
+                if mixed:
+                    for arm, v in zip(arms, vals):
+                        if v is not None:
+                            arm.extend(copy.deepcopy(b.body if v else b.orelse))
+                        else:
+                            arm.append(copy.deepcopy(b))
+                    del stmts[i + 1]
+                    log.append("flag %s: test at line %d decided in %d of %d arms, kept in the others" % (flag, getattr(b, "lineno", 0), sum(1 for v in vals if v is not None), len(arms)))
+                    continue
                 if all(v is not None for v in vals) or general:
                     for arm, v in zip(arms, vals):
                         last = arm[-1]
